@@ -59,6 +59,44 @@ Proof.
   rewrite (session_balanced k o Hf). unfold sessions_events in IH. now rewrite (IH Hr).
 Qed.
 
+(* the state of the store only restricts which outcomes can occur *)
+Lemma feasible_in_feasible : forall sh k o, feasible_in sh k o = true -> feasible k o = true.
+Proof. intros sh k o H. unfold feasible_in in H. now apply andb_prop in H. Qed.
+
+Lemma all_feasible_in_feasible : forall ss, all_feasible_in ss = true ->
+  all_feasible (map snd ss) = true.
+Proof.
+  induction ss as [|[sh [k o]] ss IH]; intro H; [reflexivity|].
+  cbn in H. apply andb_prop in H. destruct H as [Hf Hr].
+  cbn. rewrite (feasible_in_feasible sh k o Hf). now apply IH.
+Qed.
+
+Lemma constructor_fails_safe : forall k, feasible k ConstructorFails = true ->
+  mrun false (session_events New k ConstructorFails) = MOk false /\
+  count is_L (session_events New k ConstructorFails) = count is_U (session_events New k ConstructorFails) /\
+  guarded k false false (session_events New k ConstructorFails) = true.
+Proof.
+  intros k H. repeat split;
+    [now apply session_safe | now apply session_balanced | now apply session_guarded].
+Qed.
+
+(* whatever the share file looks like, a signing constructor that fails on it is the only thing
+   that can happen to a signing request *)
+Lemma unreadable_signing_fails : forall sh k o, sh <> Readable -> is_signing k = true ->
+  feasible_in sh k o = true -> o = ConstructorFails.
+Proof.
+  intros sh k o Hs Hk H. unfold feasible_in in H. apply andb_prop in H. destruct H as [_ H].
+  rewrite Hk in H. cbn in H. destruct sh; [contradiction| | |]; destruct o; try discriminate; reflexivity.
+Qed.
+
+Lemma sequence_in_safe : forall ss, all_feasible_in ss = true ->
+  mrun false (sessions_events New (map snd ss)) = MOk false /\
+  count is_L (sessions_events New (map snd ss)) = count is_U (sessions_events New (map snd ss)).
+Proof.
+  intros ss H. apply all_feasible_in_feasible in H.
+  split; [now apply sequence_safe | now apply sequence_balanced].
+Qed.
+
 Lemma sequence_ok_model : forall ss, all_feasible ss = true ->
   sequence_ok (sessions_events New ss) = true.
 Proof.
